@@ -81,7 +81,7 @@ struct Bfs {
     std::unique_ptr<State> s(sys.make()); replays++;
     if (enabled) *enabled = true;
     for (size_t i = 0; i < h.size(); ++i) {
-      Tape t; t.v = h[i].tape; t.raw_fill = fill;
+      Tape t; t.v = h[i].tape; t.set_fill(fill);
       bool ok;
       try { TapeScope sc(t); ok = sys.apply(*s, h[i].op, i + 1 == h.size() ? last_ctx : nullptr); }
       catch (const std::exception& e) {
@@ -117,7 +117,7 @@ struct Bfs {
       std::string c = sys.canon(*s);
       root.h = h128(c); seen.insert(root.h); nodes.push_back(root); frontier.push_back(0);
       Ctx ctx(rep, sc, ""); int a0 = asan_errors();
-      sys.check(*s, ctx);
+      safe_check(sys, *s, ctx);
       if (asan_errors() != a0) ctx.fail("asan", "AddressSanitizer report while checking the initial state");
       rep.flush_ctx_fails(ctx.fails, sc, "");
     }
@@ -147,7 +147,7 @@ struct Bfs {
           std::string c = sys.canon(*s);
           H128 hh = h128(c);
           bool isnew = !seen.count(hh);
-          if (isnew || lim.check_every_transition) sys.check(*s, ctx);
+          if (isnew || lim.check_every_transition) safe_check(sys, *s, ctx);
           if (asan_errors() != a0) ctx.fail("asan", "AddressSanitizer report during this operation");
           rep.flush_ctx_fails(ctx.fails, sc, hs0);
           if (isnew) { if (nodes.size() >= lim.max_states) { hit_cap = true; continue; } add_state(ni, (uint16_t)op, st.tape, c, depth + 1, frontier); }
@@ -178,7 +178,7 @@ struct Bfs {
           std::string c = sys.canon(*s3);
           H128 hh = h128(c);
           bool isnew = !seen.count(hh);
-          if (isnew || lim.check_every_transition) sys.check(*s3, c2);
+          if (isnew || lim.check_every_transition) safe_check(sys, *s3, c2);
           if (asan_errors() != a1) c2.fail("asan", "AddressSanitizer report during this operation");
           if (outs[k].canon.compare(0, 7, "FAILED:") == 0) c2.fail("draw-runaway", outs[k].canon);
           rep.flush_ctx_fails(c2.fails, sc, hs);
@@ -194,7 +194,7 @@ struct Bfs {
     journal_clear();
     rep.states += nodes.size(); rep.transitions += transitions; rep.traces += nodes.size();
     if (hit_cap) rep.cap("state cap " + std::to_string(lim.max_states) + " hit in " + sc);
-    if (hit_depth) rep.cap("depth bound " + std::to_string(lim.max_depth) + " reached in " + sc + " (all states up to that depth explored)");
+    if (hit_depth) rep.bound("depth bound " + std::to_string(lim.max_depth) + " reached in " + sc + " (all states up to that depth explored)");
     if (hit_deadline) rep.cap("global deadline reached in " + sc + "; depth fully covered: " + std::to_string(frontier.empty() ? max_depth_seen : (int)nodes[frontier.front()].depth));
     char b[256]; snprintf(b, sizeof b, "%s: states=%zu transitions=%llu max_depth=%d fixpoint=%s disabled=%llu replays=%llu %.1fs",
       sc.c_str(), nodes.size(), (unsigned long long)transitions, max_depth_seen, (!hit_cap && !hit_depth && !hit_deadline) ? "yes" : "no",
@@ -209,7 +209,7 @@ struct Bfs {
     if (!parse_hist(hs, h)) { out.push_back(std::make_pair("replay-parse", "cannot parse history")); return out; }
     Ctx ctx(rep, sys.name(), hs); bool en = true; int a0 = asan_errors();
     std::unique_ptr<State> s = replay(h, &ctx, &en);
-    sys.check(*s, ctx);
+    safe_check(sys, *s, ctx);
     if (asan_errors() != a0) ctx.fail("asan", "AddressSanitizer report during replay");
     return ctx.fails;
   }
